@@ -160,6 +160,12 @@ func c02(p *Prog, r *Report) {
 	r.Rule(R4, "request-state fields are written only inside the constructors", 4)
 	r.Rule(R5, "type 5: numElements == len(tokenInputs) dominates success; token i = decode(tokenInputs[i] ++ outputs[i]) with the same i", 2)
 
+	c02Body(p, r, R1, R2, R3, R4, R5)
+}
+
+// c02Body: the per-type checks, parameterised by rule names so that C01 can
+// reuse the construction-binding and token-building parts.
+func c02Body(p *Prog, r *Report, R1, R2, R3, R4, R5 string) {
 	// ---------- type 1
 	if fn := anchor(p, r, R1, "(~/tokens/type1.BasicPrivateTokenRequestState).FinalizeToken"); fn != nil {
 		r.List("functions", shortName(fn))
